@@ -16,29 +16,30 @@ import (
 const oxyMod = "github.com/vulcand/oxy/v2"
 
 type Engine struct {
-	repo   string
-	prog   *ssa.Program
-	pkgs   map[string]*ssa.Package // by path
-	ppkgs  map[string]*packages.Package
-	cs     *Contracts
-	mu     sync.Mutex
-	funcs  map[string]*ssa.Function // key pkgpath.Name (SSA relative string)
+	repo  string
+	prog  *ssa.Program
+	pkgs  map[string]*ssa.Package // by path
+	ppkgs map[string]*packages.Package
+	cs    *Contracts
+	mu    sync.Mutex
+	funcs map[string]*ssa.Function // key pkgpath.Name (SSA relative string)
 
 	// per function-run symbol tables (reset by newRun)
-	stringMode bool
-	strLits    map[string]string
-	decls      map[string]string // symbol -> sort
-	declOrder  []string
-	ufuns      map[string]string // name -> declaration line
-	ufunOrder  []string
-	counter    int
-	qcounter   int
-	typeIDs    map[string]int
-	typeIDName []string
-	keySort    map[string]string
-	globalsRO  map[string]bool
-	trusted    map[string]bool // trusted-base notes collected during the run
-	allocated  map[string]bool
+	stringMode    bool
+	strLits       map[string]string
+	decls         map[string]string // symbol -> sort
+	declOrder     []string
+	ufuns         map[string]string // name -> declaration line
+	ufunOrder     []string
+	counter       int
+	qcounter      int
+	typeIDs       map[string]int
+	typeIDName    []string
+	keySort       map[string]string
+	globalsRO     map[string]bool
+	mayPanicMemo  map[*ssa.Function]int
+	trusted       map[string]bool // trusted-base notes collected during the run
+	allocated     map[string]bool
 	stableContent map[string]bool
 }
 
